@@ -15,6 +15,17 @@ from .. import framework as F
 from .. import tlc
 from .. import abstraction as A
 
+MC_CFG = '''SPECIFICATION Spec
+CONSTANT MaxLen = %d
+INVARIANT Total
+INVARIANT SpanInside
+INVARIANT NamesAreIdentifiers
+INVARIANT HeaderShape
+INVARIANT AssignShape
+INVARIANT BlankInsensitive
+INVARIANT CommentIff
+CHECK_DEADLOCK FALSE
+'''
 WRAP = {
     'plain': ([], []), 'if': ([], ['endif']), 'while': ([], ['endwhile']), 'for': ([], ['endfor']),
     'function': ([], ['x1 = 1', 'endfunction']), 'elif': (['if c0:'], ['endif']), 'else': (['if c0:', 'x1 = 1'], ['x2 = 2', 'endif']),
@@ -155,6 +166,12 @@ def run(ctx, replay=None):
     if replay is not None:
         F.judge(ctx, 'Trace_Statement', [replay['case']], None, cfg_consts='CONSTANT Dev = {}\n', key_fields=('line', 'ctx'))
         return F.finish(ctx, rule='replay (recorded case re-judged)')
+    ml = ctx.pick(4, 5)
+    r = tlc.check_model('MC_Statement', MC_CFG % ml, ctx.work, tag='stmt')
+    ctx.mc_runs.append({'module': 'MC_Statement', 'MaxLen': ml, 'states': r['states'], 'ok': r['ok'], 'seconds': round(r['seconds'], 1)})
+    ctx.add_stats(r)
+    if not r['ok']:
+        ctx.violation('design-level: MC_Statement property violated', {'property': ctx.pid, 'mc': 'MC_Statement', 'out': r['out'][-3000:]})
     cases = F.pmap(one_case, [(ctx.seed * 15485863 + i,) for i in range(ctx.pick(9000, 200000))])
     F.judge(ctx, 'Trace_Statement', cases, canaries, cfg_consts='CONSTANT Dev = {}\n', key_fields=('line', 'ctx'),
             describe=lambda c: {'line': A.uncps(c['line']), 'placed': c['ctx'], 'written_as': c['meant'], 'outcome': c['obs']['outcome'],
